@@ -95,8 +95,10 @@ def is_complex(t):
     """Is the region of the tree that receives the inputs complex?  A
     toreal/toimag node returns real vectors: the region above it is real
     (mode 2 = root toreal/toimag with arbitrary flags, driven with complex inputs)."""
+    if t.get("mode2"):
+        return True
     if t["op"] == "realimag":
-        return bool(t.get("mode2"))
+        return False
     if t["op"] == "leaf":
         return any(c[1] != 0 for r in t["A"] for c in r) or t.get("cplx", False)
     if t["op"] == "scale" and t["alpha"][1] != 0:
@@ -161,9 +163,12 @@ def npd(t):
 def mode_of(t):
     """0 = C-linear tree, 1 = toreal/toimag inside a real tree (real inputs),
     2 = root toreal/toimag with arbitrary flags and complex inputs (operational model only)."""
-    if t["op"] == "realimag" and t.get("mode2"):
+    if t.get("mode2"):
         return 2
     return 1 if contains(t, "realimag") else 0
+
+
+_FORCE = [False]   # mode 2: complex vectors reach every node, build every stack complex
 
 
 def build(t, dt):
@@ -207,7 +212,7 @@ def build(t, dt):
     if op == "kron":
         return pylops.Kronecker(build(t["a"], dt), build(t["b"], dt), dtype=dt)
     if op == "realimag":
-        sub = build(t["a"], np.complex128 if (is_complex(t["a"]) or t.get("mode2")) else np.float64)
+        sub = build(t["a"], np.complex128 if (_FORCE[0] or is_complex(t["a"]) or t.get("mode2")) else np.float64)
         return sub.toreal(forw=t["fw"], adj=t["aj"]) if t["real"] else sub.toimag(forw=t["fw"], adj=t["aj"])
     raise ValueError(op)
 
@@ -277,13 +282,40 @@ def gen_outer(r, m, n, d, cfg):
     toreal()/toimag() nodes wrap complex C-linear trees."""
     ops = ["leaf", "realimag"]
     if d > 0:
-        ops += ["add", "sub", "mul", "scale", "neg", "H", "T", "conj", "realimag", "realimag"]
+        ops += ["add", "sub", "mul", "scale", "neg", "H", "T", "conj", "realimag", "realimag", "cols"]
         if m == n:
             ops += ["pow"]
+        if m >= 2:
+            ops += ["vstack", "vstack"]
+        if n >= 2:
+            ops += ["hstack", "hstack"]
+        if m >= 2 and n >= 2:
+            ops += ["blockdiag", "blockdiag", "block"]
+        if (m in (4, 6) or n in (4, 6)) or r.random() < 0.15:
+            ops += ["kron", "kron"]
         if r.random() < 0.85:
             ops.remove("leaf")
     op = r.choice(ops)
     g = lambda mm, nn: gen_outer(r, mm, nn, d - 1, cfg)
+    if op == "cols":
+        n2 = n + r.randint(0, 2)
+        return {"op": "cols", "cs": r.sample(range(n2), n), "a": g(m, n2)}
+    if op == "vstack":
+        return {"op": "vstack", "es": [g(mi, n) for mi in split(r, m, r.randint(2, min(3, m)))]}
+    if op == "hstack":
+        return {"op": "hstack", "es": [g(m, ni) for ni in split(r, n, r.randint(2, min(3, n)))]}
+    if op == "blockdiag":
+        k = r.randint(2, min(3, m, n))
+        return {"op": "blockdiag", "es": [g(mi, ni) for mi, ni in zip(split(r, m, k), split(r, n, k))]}
+    if op == "block":
+        ms, ns = split(r, m, 2), split(r, n, 2)
+        return {"op": "block", "ess": [[gen_outer(r, mi, ni, max(d - 2, 0), cfg) for ni in ns] for mi in ms]}
+    if op == "kron":
+        dm = [k for k in range(1, m + 1) if m % k == 0]
+        dn = [k for k in range(1, n + 1) if n % k == 0]
+        m1 = r.choice(dm[1:-1] if len(dm) > 2 and r.random() < 0.7 else dm)
+        n1 = r.choice(dn[1:-1] if len(dn) > 2 and r.random() < 0.7 else dn)
+        return {"op": "kron", "a": g(m1, n1), "b": g(m // m1, n // n1)}
     if op == "leaf":
         return {"op": "leaf", "m": m, "n": n, "cplx": False, "A": [[[r.randint(-3, 3), 0] for _ in range(n)] for _ in range(m)]}
     if op == "realimag":
@@ -322,10 +354,14 @@ def gen(r, m, n, d, cfg):
             ops += ["kron"]
         if cfg["cols_nested"] and r.random() < 0.3:
             ops += ["cols"]
+        if cfg.get("ri"):
+            ops += ["realimag", "realimag"]
         if r.random() < 0.8:
             ops.remove("leaf")
     op = r.choice(ops)
     g = lambda mm, nn: gen(r, mm, nn, d - 1, cfg)
+    if op == "realimag":
+        return {"op": "realimag", "fw": r.random() < 0.6, "aj": r.random() < 0.6, "real": r.random() < 0.5, "a": g(m, n)}
     if op == "leaf":
         cplx = cfg["cplx"] and r.random() < 0.5
         A = [[[r.randint(-3, 3), r.randint(-3, 3) if cplx else 0] for _ in range(n)] for _ in range(m)]
@@ -418,7 +454,7 @@ def gen_tree(r, tier, kind):
     d = r.randint(1, maxd)
     dims = [1, 1, 2, 2, 3, 3, 4] + ([5] if tier != "quick" else [])
     m, n = r.choice(dims), r.choice(dims)
-    if kind == "kron":
+    if kind == "kron" or (kind in ("realimag", "realimag_nest") and r.random() < 0.35):
         m, n = r.choice([2, 4, 4, 6, 6]), r.choice([2, 4, 4, 6, 6])
     for _ in range(200):
         if kind == "colsroot":
@@ -432,6 +468,12 @@ def gen_tree(r, tier, kind):
         elif kind == "realimag_op":
             t = {"op": "realimag", "fw": r.random() < 0.6, "aj": r.random() < 0.6, "real": r.random() < 0.5,
                  "mode2": True, "a": gen(r, m, n, d, dict(cfg, kron=True))}
+        elif kind == "realimag_nest":
+            # toreal/toimag with arbitrary flags anywhere below stacks / apply_columns / Kronecker, complex inputs
+            t = gen(r, m, n, max(d, 2), dict(cfg, kron=True, cols_nested=True, ri=True))
+            if not contains(t, "realimag") or t["op"] == "realimag":
+                continue
+            t = dict(t, mode2=True)
         else:
             t = gen(r, m, n, d, cfg)
         if size(t) > (40 if tier == "quick" else 90):
@@ -490,24 +532,88 @@ def expected(D, v, c, X):
     return Dv @ X if c in ("matvec", "matmat") else Dv.conj().T @ X
 
 
+def np_ap(t, adj, X):
+    """numpy twin of the operational semantics (R-linear trees, any input):
+    what the expression computes on the columns of X, written on the leaf
+    matrices; used as the oracle for trees with toreal/toimag nodes with
+    arbitrary flags (mode 2)."""
+    op = t["op"]
+    X = np.asarray(X, dtype=complex)
+    if op == "leaf":
+        A = leaf_arr(t)
+        return (A.conj().T if adj else A) @ X
+    if op == "add":
+        return np_ap(t["a"], adj, X) + np_ap(t["b"], adj, X)
+    if op == "sub":
+        return np_ap(t["a"], adj, X) - np_ap(t["b"], adj, X)
+    if op == "mul":
+        return np_ap(t["b"], adj, np_ap(t["a"], adj, X)) if adj else np_ap(t["a"], adj, np_ap(t["b"], adj, X))
+    if op == "scale":
+        al = cnum(t["alpha"])
+        return (np.conj(al) if adj else al) * np_ap(t["a"], adj, X)
+    if op == "neg":
+        return -np_ap(t["a"], adj, X)
+    if op == "pow":
+        for _ in range(t["p"]):
+            X = np_ap(t["a"], adj, X)
+        return X
+    if op == "H":
+        return np_ap(t["a"], not adj, X)
+    if op == "T":
+        return np.conj(np_ap(t["a"], not adj, np.conj(X)))
+    if op == "conj":
+        return np.conj(np_ap(t["a"], adj, np.conj(X)))
+    if op == "cols":
+        if adj:
+            return np_ap(t["a"], True, X)[t["cs"], :]
+        Z = np.zeros((npd(t["a"]).shape[1], X.shape[1]), dtype=complex)
+        Z[t["cs"], :] = X
+        return np_ap(t["a"], False, Z)
+    if op == "block":
+        return np_ap({"op": "vstack", "es": [{"op": "hstack", "es": row} for row in t["ess"]]}, adj, X)
+    if op in LIST_OPS:
+        shp = [npd(e).shape for e in t["es"]]
+        ro = np.concatenate([[0], np.cumsum([sh[0] for sh in shp])])
+        co = np.concatenate([[0], np.cumsum([sh[1] for sh in shp])])
+        es = t["es"]
+        if op == "vstack":
+            return (sum(np_ap(e, True, X[ro[i]:ro[i + 1]]) for i, e in enumerate(es)) if adj
+                    else np.vstack([np_ap(e, False, X) for e in es]))
+        if op == "hstack":
+            return (np.vstack([np_ap(e, True, X) for e in es]) if adj
+                    else sum(np_ap(e, False, X[co[i]:co[i + 1]]) for i, e in enumerate(es)))
+        return np.vstack([np_ap(e, adj, X[(ro if adj else co)[i]:(ro if adj else co)[i + 1]]) for i, e in enumerate(es)])
+    if op == "kron":
+        (m1, n1), (m2, n2) = npd(t["a"]).shape, npd(t["b"]).shape
+        k1, k2 = (m1, m2) if adj else (n1, n2)
+        outs = []
+        for k in range(X.shape[1]):
+            Xm = X[:, k].reshape(k1, k2)
+            Y = np_ap(t["b"], adj, Xm.T).T
+            outs.append(np_ap(t["a"], adj, Y).ravel())
+        return np.array(outs).T.reshape(-1, X.shape[1])
+    if op == "realimag":
+        Y = np_ap(t["a"], adj, X)
+        if adj and t["aj"]:
+            Y = (Y.real if t["real"] else -Y.imag) + 0j
+        if not adj and t["fw"]:
+            Y = (Y.real if t["real"] else Y.imag) + 0j
+        return Y
+    raise ValueError(op)
+
+
 def expected_tree(t, v, c, X):
     """numpy evaluation of one call on the tree."""
     if mode_of(t) != 2:
         return expected(npd(t), v, c, X)
-    # root toreal/toimag with arbitrary flags on complex inputs (R-linear)
-    D = npd(t["a"])
-    pr = (lambda Z: Z.real) if t["real"] else (lambda Z: Z.imag)
-    pa = (lambda Z: Z.real) if t["real"] else (lambda Z: -Z.imag)
-    fwd = lambda Z: (pr(D @ Z) if t["fw"] else D @ Z) + 0j
-    adj = lambda Z: (pa(D.conj().T @ Z) if t["aj"] else D.conj().T @ Z) + 0j
     first = c in ("matvec", "matmat")
     if v == "root":
-        return fwd(X) if first else adj(X)
+        return np_ap(t, not first, X)
     if v == "H":
-        return adj(X) if first else fwd(X)
+        return np_ap(t, first, X)
     if v == "T":
-        return np.conj(adj(np.conj(X))) if first else np.conj(fwd(np.conj(X)))
-    return np.conj(fwd(np.conj(X))) if first else np.conj(adj(np.conj(X)))
+        return np.conj(np_ap(t, first, np.conj(X)))
+    return np.conj(np_ap(t, not first, np.conj(X)))
 
 
 def run_tree(t, X):
@@ -518,6 +624,7 @@ def run_tree(t, X):
     with warnings.catch_warnings():
         warnings.simplefilter("ignore")
         try:
+            _FORCE[0] = mode_of(t) == 2
             Op = build(t, dt)
         except Exception as e:  # noqa
             return {k: e for k in X}
@@ -545,6 +652,7 @@ def disagree(t, v, c, X):
     with warnings.catch_warnings():
         warnings.simplefilter("ignore")
         try:
+            _FORCE[0] = mode_of(t) == 2
             Y = run_call(view_of(build(t, dt), v), c, X)
         except Exception as e:  # noqa
             return ("%s: %s" % (type(e).__name__, e), exp)
@@ -736,8 +844,8 @@ def main(tier):
     thms, axioms = common.props_assumptions(PID)
     t0 = time.time()
     quick = tier == "quick"
-    plan = ([("real", 40), ("complex", 64), ("colsroot", 10), ("colsnested", 8), ("kron", 16), ("realimag", 18), ("realimag_op", 8), ("natdtype", 10)] if quick else
-            [("real", 540), ("complex", 1080), ("colsroot", 120), ("colsnested", 90), ("kron", 240), ("realimag", 270), ("realimag_op", 120), ("natdtype", 120)])
+    plan = ([("real", 40), ("complex", 64), ("colsroot", 10), ("colsnested", 8), ("kron", 16), ("realimag", 26), ("realimag_op", 6), ("realimag_nest", 10), ("natdtype", 10)] if quick else
+            [("real", 540), ("complex", 1080), ("colsroot", 120), ("colsnested", 90), ("kron", 240), ("realimag", 400), ("realimag_op", 80), ("realimag_nest", 160), ("natdtype", 120)])
     cases, kfound = [], {}
     stats = {"trees": 0, "calls": 0, "by_kind": {}, "by_depth": {}, "ops": {}, "shapes_1xN_or_Nx1": 0, "complex_trees": 0,
              "complex_scalar_on_real_subtree": 0, "by_mode": {}}
@@ -874,7 +982,7 @@ def main(tier):
         rule="one case per generated tree; 16 calls per tree = {root, .H, .T, .conj()} x {matvec, rmatvec, matmat(K=2), rmatmat(K=2)} on integer / Gaussian-integer inputs; non-trivial = distinct (tree, view, call) with non-zero implementation output; mode 0 = C-linear trees (Expr.wf) compared with apmat and dense, mode 1 = real trees with toreal()/toimag() nodes over complex subtrees on real inputs (Expr.rwf) compared with apmat and dense, mode 2 = root toreal/toimag with arbitrary forw/adj flags on complex inputs compared with apmat only (plus numpy in the search)",
         trees=stats["trees"], calls_compared_in_coq=ncoq_calls, trees_in_coq=len(cases) - 1,
         distribution=stats, modelled=["MatrixMult leaves", "+", "-", "@/*", "scalar*", "neg", "**p", ".H", ".T", ".conj()", "apply_columns", "VStack", "HStack", "BlockDiag", "Block", "Kronecker", "toreal/toimag"],
-        oracle_only=[], not_covered=["toreal/toimag nested under stacks/apply_columns/Kronecker of the real outer tree (Expr.rwf covers +,-,@,scalar,neg,**,.H,.T,.conj() above them)"],
+        oracle_only=[], not_covered=[],
         proposed_known_findings=PROPOSED_KNOWN, t_python=round(t_py, 1), t_coq=round(t_coq, 1))
     R.samples = [{"tree": show(c[1]), "shape": list(npd(c[1]).shape), "complex": is_complex(c[1]),
                   "x": [str(z) for z in c[2][0][2][:, 0][:4]], "Op_x": [str(z) for z in np.asarray(c[2][0][3])[:, 0][:4]]}
